@@ -39,7 +39,7 @@ META['explanation'] += ' ' + 'R10: SCSV fold tabulated through the class default
 
 META['explanation'] += ' ' + 'R2 also: a parsed field that reaches no argument of the constructed object, a constant written in place of an attribute the parser stores as read, items written sorted / reversed. R14: numeric presence by truth value. R15: flag words and timestamps (shared with C11.R4/R5). R16: ECDSA points (shared with C07.R12). R17: validators in the position of a default. R18: adjacent optional text parts with the same introducer.'
 
-META['explanation'] += ' ' + 'R19: SSH identification string (shared with C07.R6). R20: SPF network terms (shared with C18.R7).'
+META['explanation'] += ' ' + 'R19: SSH identification string (shared with C07.R6). R20: SPF network terms (shared with C18.R7). R21: no member of a variant table demands more bytes up front than a complete message of a sibling has.'
 
 HERE = os.path.dirname(os.path.dirname(os.path.abspath(__file__)))
 
@@ -207,6 +207,7 @@ def check(ctx, report):
     banner(ctx, report, RULE='C01.R19')
     from .c18 import spf_network_composer
     spf_network_composer(ctx, report, rule='C01.R20')
+    variant_siblings_reachable(ctx, report)
     if 'SslRecord' in reviewed and reviewed['SslRecord'].get('strip_header'):
         # the header left out of the element-wise comparison above
         from .c06 import ssl2_header
@@ -849,3 +850,104 @@ def number_presence_by_truth_value(ctx, report, RULE='C01.R14'):
                                    '%s decides by the truth value of self.%s, a numeric field (%s): the value 0 is treated as "absent", so a message holding it is '
                                    'composed as another message than the parser reads back' % (f.qualname, p.attr, ast.unparse(numeric[p.attr].validator_node)[:70]))
     report.floor(RULE, 15, 'composer functions of classes with numeric fields')
+
+
+def variant_siblings_reachable(ctx, report, RULE='C01.R21'):
+    """A variant parser hands the input to its member classes in turn and moves on only when a member says "not my type"
+    (InvalidType).  A member that opens with ``if len(parsable) < cls.SIZE: raise NotEnoughData`` answers *before* it looked at the
+    type: a complete message of a sibling that is shorter than SIZE never reaches its own class - the variant raises
+    NotEnoughData for bytes that compose(parse) would have to give back.  For every table of every concrete variant class: the
+    largest constant a member demands up front (pre-checks on the path of its _parse, found as in C04.R4 but whatever the
+    constant is called) must not exceed the shortest encoding (layout minimum) of any other member of the table."""
+    from ..canon import min_size
+    from ..linform import guard_deficit, single_defs
+    from ..trace import walk
+    model = ctx.model
+    report.rule(RULE, 'variant tables: the bytes a member demands before it looks at the type do not exceed the shortest message of a sibling')
+    demand_memo, size_memo = {}, {}
+
+    def demand(c):
+        if c.name in demand_memo:
+            return demand_memo[c.name]
+        best = None
+        f = c.resolve('_parse')
+        try:
+            res = ctx.canon.layout(c, 'parse').result
+            reached = {id(getattr(n, 'func', None)) for n in walk(res.block)}
+        except Exception:      # pylint: disable=broad-except
+            reached = set()
+        for owner in c.mro:
+            if not isinstance(owner, ClassInfo):
+                continue
+            for g in owner.methods.values():
+                if g is not f and id(g) not in reached:
+                    continue
+                defs = single_defs(g.node)
+                for n in ast.walk(g.node):
+                    if isinstance(n, ast.If) and any(isinstance(x, ast.Raise) and x.exc is not None and 'NotEnoughData' in ast.unparse(x.exc) for x in n.body):
+                        gd = guard_deficit(n.test, {}, defs)
+                        if gd is None:
+                            continue
+                        d = gd[0]
+                        plus = [k for k, v in d.terms.items() if v == 1]
+                        minus = [k for k, v in d.terms.items() if v == -1]
+                        if d.const == 0 and len(d.terms) == 2 and minus == ['len(parsable)'] and len(plus) == 1 and plus[0].split('.')[0] in ('cls', 'self'):
+                            v = c.resolve_var(plus[0].split('.')[-1])
+                            node = getattr(v, 'node', None)
+                            val = None
+                            if isinstance(node, ast.Constant) and isinstance(node.value, int):
+                                val = node.value
+                            elif isinstance(node, ast.AST):
+                                try:
+                                    from ..miniexec import Evaluator, class_call_hook
+                                    h = class_call_hook(c, None, model)
+                                    ev = Evaluator({}, h, h.name_hook_for(c.module, None))
+                                    ev.class_scope, ev.class_scope_node = getattr(v, 'cls', None) or c, node
+                                    got = ev.ev(node)
+                                    val = got if isinstance(got, int) and not isinstance(got, bool) else None
+                                except Exception:      # pylint: disable=broad-except
+                                    val = None
+                            if val is not None and (best is None or val > best[0]):
+                                best = (val, plus[0].split('.')[-1], g)
+        demand_memo[c.name] = best
+        return best
+
+    def shortest(c):
+        if c.name not in size_memo:
+            try:
+                cn = ctx.canon.canon(c, 'parse')
+                size_memo[c.name] = min_size(cn.elements, ctx.canon) if cn is not None and cn.elements else None
+            except Exception:      # pylint: disable=broad-except
+                size_memo[c.name] = None
+        return size_memo[c.name]
+    tables = 0
+    for c in model.repo_classes():
+        if not c.is_subclass_of('VariantParsableBase') or c.abstract_methods or c.resolve('_get_variants') is None:
+            continue
+        v = ctx.interp.const_call(c, '_get_variants')
+        if not isinstance(v, DictV):
+            continue
+        members = []
+        for _tag, lst in v.pairs:
+            for item in ctx.interp.iter_items(lst) or []:
+                if isinstance(item, ClassV) and isinstance(item.cls, ClassInfo) and item.cls not in members and item.cls.resolve('_parse') is not None:
+                    members.append(item.cls)
+        if len(members) < 2:
+            continue
+        tables += 1
+        for m in members:
+            d = demand(m)
+            if d is None:
+                continue
+            report.count(RULE)
+            for s_ in members:
+                if s_ is m:
+                    continue
+                ms = shortest(s_)
+                if ms is not None and 0 < ms < d[0]:
+                    report.add(RULE, '%s@demands[%s>%s]' % (m.construct, d[1], s_.name),
+                               '%s demands %d bytes (%s) before it looks at the message type; a complete %s has %d: handed to %s it is answered '
+                               'with NotEnoughData by %s and never reaches its own class' % (m.name, d[0], d[1], s_.name, ms, c.name, m.name))
+                    break
+    report.sample({'rule': RULE, 'variant_tables': tables})
+    report.floor(RULE, 10, 'members of variant tables with a size pre-check')
